@@ -11,6 +11,7 @@ pub mod c11;
 pub mod c13;
 pub mod c16;
 pub mod c17;
+pub mod c18;
 pub mod replay;
 
 use crate::common::{Coverage, Ctx};
@@ -31,6 +32,7 @@ pub fn dispatch(ctx: &Ctx) -> Option<Coverage> {
         "C13" => c13::run(ctx),
         "C16" => c16::run(ctx),
         "C17" => c17::run(ctx),
+        "C18" => c18::run(ctx),
         "C12" => c11::run_c12(ctx),
         _ => return None,
     })
